@@ -59,7 +59,7 @@ def setup_worker(ctx):
 def gen_history(rng):
     mi = rng.randrange(len(rtmodel.MAX_DTS))
     md = rtmodel.MAX_DTS[mi]
-    t0 = rng.choice([0.0, 10.0, -5.0, round(rng.uniform(-100, 100), 2)])
+    t0 = rng.choice([0.0, 10.0, -5.0, round(rng.uniform(-100, 100), 2), 1.0e5, 3.2e7, 1.7e9 + round(rng.uniform(0, 1e6), 3)])
     ticks = []
     held = t0
     pay = 0
